@@ -55,6 +55,12 @@ def op_hll_fullscale(job):
     h = HyperLogLogWCache(0.02)
     ev = []
     n = 0
+    if job.get('companion'):
+        # a second sketch in the same process that also leaves its warm-up phase (two high-cardinality columns of one run):
+        # it must not influence the sketch under observation
+        h2 = HyperLogLogWCache(0.02)
+        for i in range((1 << 18) + 20000):
+            h2.add(f'other-{i}')
 
     def add_new(k, log_each=False):
         nonlocal n
@@ -208,7 +214,7 @@ def op_transform_columns(job):
         warnings.simplefilter('ignore')
         np.seterr(all='ignore')
         for it in job['items']:
-            df = pd.DataFrame({'x': it['values'], 'other': ['k'] * len(it['values'])})
+            df = pd.DataFrame({'x': [float('nan') if v is None else v for v in it['values']], 'other': ['k'] * len(it['values'])})      # None = a real missing cell
             before = df.copy(deep=True)
             try:
                 t = FeatureTransformerGeneric({'x'}, preset=it['preset'])
@@ -292,9 +298,11 @@ def op_rank3mr(job):
     with warnings.catch_warnings():
         warnings.simplefilter('ignore')
         for it in job['items']:
-            rel = dict(it['rel'])
-            red = {(g, f): v for g, f, v in it['red']}
-            rln = {(g, f): v for g, f, v in it['rln']}
+            # feature keys as the caller has them: names, or the integer column ids of a header-less frame ('int_keys')
+            K = (lambda x: int(x)) if it.get('int_keys') else (lambda x: x)
+            rel = {K(k_): v_ for k_, v_ in it['rel'].items()}
+            red = {(K(g), K(f)): v for g, f, v in it['red']}
+            rln = {(K(g), K(f)): v for g, f, v in it['rln']}
             try:
                 df = rank_features_3MR(rel, red, rln, it['strategy'], it['alpha'], it['beta'])
                 out.append({'order': [str(x) if x is not None else None for x in df['Feature'].tolist()], 'ranks': [int(x) for x in df['3MR_Ranking'].tolist()]})
